@@ -2,7 +2,7 @@
    The compact scan is the generic conjunction scan with needf c = max 1 (size c). *)
 From Coq Require Import List NArith ZArith Bool Permutation.
 From BE Require Import Model.Scan Model.Cursor Proofs.ScanProof Proofs.Refine Proofs.ConcreteScan.
-From BE Require Model.GoVal Model.Parsers Model.Index Gen.IdsGen Proofs.RoaringProof Proofs.IndexBuildInv Proofs.IndexCorrect.
+From BE Require Model.GoVal Model.Parsers Model.Index Gen.IdsGen Proofs.RoaringProof Proofs.IndexBuildInv Proofs.IndexCorrect Proofs.NonVacuous.
 Import ListNotations.
 Local Open Scope N_scope.
 
@@ -62,6 +62,12 @@ Theorem C02_compact_documents_exact : forall pol thr parsers ds st os q,
        (In (Index.d_id d) docs <-> exists cj, In cj (Index.d_conjs d) /\ IndexCorrect.conj_sat parsers q cj = true)) /\
     (forall z, In z docs -> exists d, In d ds /\ z = Index.d_id d).
 Proof. intros pol thr parsers. exact (IndexCorrect.retrieve_docs_correct Index.ICompact pol thr parsers). Qed.
+
+(* the hypotheses of the end-to-end theorems are met by a concrete document set (3 documents, include and
+   exclude expressions, a negative id) and assignment, accepted by the builder, for which the concrete
+   retrieval returns a non-empty proper subset of the documents *)
+Example C02_nonvacuous : NonVacuous.ex_ok Index.ICompact = true /\ NoDup (map Index.d_id NonVacuous.ex_docs).
+Proof. split; [exact NonVacuous.hypotheses_met_compact | exact NonVacuous.ex_ids_distinct]. Qed.
 
 Print Assumptions C02_generic_scan_exact.
 Print Assumptions C02_compact_index_exact.
